@@ -26,13 +26,18 @@ CONCS = {
     "falsy-tasks/mixed-prios": (lambda t: (None, 0, "", (), frozenset(), 0.5)[t] if t < 6 else ("t", t),
                                 lambda p: None if p == 99 else (True if p == 1 else False if p == 0 else
                                                                 [p, float(p), Fraction(p), Decimal(p)][p % 4])),
+    # the constructor's priority_key option: callers hand in negated numbers and the key turns them back into the
+    # effective priority (smaller key value = served first); numeric strings and very large ints under the default key
+    "str-tasks/negated-prios+priority_key": (lambda t: "t%d" % t, lambda p: None if p == 99 else -p, {"priority_key": lambda p: float(p or 0)}),
+    "str-tasks/numeric-string-prios": (lambda t: "t%d" % t, lambda p: None if p == 99 else "%d" % p if p % 2 else "%d.0" % p),
+    "int-tasks/huge-int-prios": (lambda t: 7000 + t, lambda p: None if p == 99 else p * 2 ** 60),
 }
 VARIANTS = [("HeapPriorityQueue", None), ("SortedPriorityQueue", None), ("SortedPriorityQueue", 1), ("SortedPriorityQueue", 3)]
 
 
-def make(kind, factor):
+def make(kind, factor, kw=None):
     from boltons import queueutils
-    q = getattr(queueutils, kind)()
+    q = getattr(queueutils, kind)(**(kw or {}))
     if factor is not None:
         try:
             q._pq._size_factor = factor    # instance attribute: this queue's BarrelList splits early
@@ -46,13 +51,16 @@ class Driver(GenericAdapter):
 
     def __init__(self, conc, variants=VARIANTS):
         self.name = conc
-        self.T, self.P = CONCS[conc]
+        self.T, self.P = CONCS[conc][:2]
+        self.ctor_kw = CONCS[conc][2] if len(CONCS[conc]) > 2 else None
         self._tab = {}
         for i in range(1, 200):
             self._tab[self.T(i)] = i
         self.kinds = variants
         # the value handed to pop / peek as default: falsy ones where no task can be mistaken for it
         self.default = "DEFAULT" if conc.startswith("falsy") else {"str": None, "tup": 0, "int": ""}[conc[:3]]
+        if "priority_key" in conc and variants is VARIANTS:
+            self.kinds = [("PriorityQueue", None)] + list(variants)       # the documented default name too
         self.calls = 0
 
     def dec(self, x):
@@ -64,7 +72,7 @@ class Driver(GenericAdapter):
             return -999
 
     def fresh(self, st):
-        return [make(k, f) for k, f in self.kinds]
+        return [make(k, f, self.ctor_kw) for k, f in self.kinds]
 
     def one(self, q, op):
         n = op["op"]
@@ -220,7 +228,7 @@ def main(tier, seed):
     stats.add_tlc(r)
     g = Graph(r)
     stats.extra["graph_states"], stats.extra["graph_edges"] = len(g.states), g.n_edges
-    for cn in (list(CONCS) if thorough else [list(CONCS)[0], list(CONCS)[3]]):
+    for cn in (list(CONCS) if thorough else [list(CONCS)[0], list(CONCS)[3], list(CONCS)[4]]):
         core.replay_graph_generic(g, Driver(cn), verdict, stats)
     canary(stats)
     traces = record(400 if thorough else 80, 3000 if thorough else 400, seed)
